@@ -46,6 +46,7 @@ type Evt struct {
 	Sz     int64  `json:"sz,omitempty"`
 	ErrAPI bool   `json:"errapi,omitempty"` // GetWithError instead of Get
 	N      int    `json:"n,omitempty"`      // fill: number of keys K, K+1, ... (values V, V+1, ...)
+	Hits   bool   `json:"hits,omitempty"`   // fill: the keys are all cached already (no loader runs)
 }
 
 func (e Evt) coq() string {
@@ -62,7 +63,7 @@ func (e Evt) coq() string {
 	case "resume":
 		return fmt.Sprintf("EResume %d", e.T)
 	case "fill":
-		return fmt.Sprintf("EFill %d %d %d (%d)%%Z (%d)%%Z", e.C, e.K, e.N, e.V, e.Sz)
+		return fmt.Sprintf("EFill %s %d %d %d (%d)%%Z (%d)%%Z", casefile.Bool(!e.Hits), e.C, e.K, e.N, e.V, e.Sz)
 	case "resumesave":
 		return fmt.Sprintf("EResumeSave %d", e.T)
 	case "add":
@@ -323,13 +324,14 @@ func (w *world) do(e Evt) {
 	case "resume":
 		w.resume(e.T, false)
 	case "fill":
-		// N sequential Gets of fresh keys, each loader runs at once (no goroutines, no parking)
+		// N sequential Gets, all of fresh keys (each loader runs at once) or all of cached keys (no loader runs);
+		// no goroutines, no parking
 		c := w.caches[e.C]
 		for i := 0; i < e.N; i++ {
 			ran := false
 			v := c.Get(uint32(e.K+i), func() ([]byte, int) { ran = true; return enc(e.V + int64(i)), int(e.Sz) })
-			if !ran {
-				w.dead = fmt.Sprintf("fill: key %d was already cached", e.K+i)
+			if ran == e.Hits {
+				w.dead = fmt.Sprintf("fill: key %d: loader ran = %v, expected %v", e.K+i, ran, !e.Hits)
 				return
 			}
 			w.thr = append(w.thr, &thr{c: e.C, k: e.K + i, kind: kVal, status: 0, val: dec(v)})
@@ -816,12 +818,8 @@ func genRebuild(r *rng.R, cw *casefile.Writer) {
 		m = 0
 	}
 	var v int64 = 5000
-	for j := 0; j < m && w.dead == ""; j++ {
-		v++
-		w.do(Evt{Op: "call", C: 0, K: 100 + j*3%n, V: v, Sz: 1, ErrAPI: r.Bool()})
-		if id := len(w.thr) - 1; w.dead == "" && w.thr[id].status == 10 { // (a reload if j*3%n repeats after a wrap: not here, m < n/3)
-			w.do(Evt{Op: "resume", T: id})
-		}
+	if m > 0 {
+		w.do(Evt{Op: "fill", Hits: true, C: 0, K: 100 + r.Intn(n-m), N: m, V: 3000, Sz: 1})
 	}
 	var creators []int
 	for k := 1; k <= p && w.dead == ""; k++ {
